@@ -425,7 +425,8 @@ func (p *Clients) execGate(op sim.Op) {
 		var h int64
 		for k := range cs.hist {
 			hh, _ := clienttypes.ParseHeight(k)
-			if int64(hh.RevisionHeight) > p.bPkt.SentAt && int64(hh.RevisionHeight) > h {
+			// (a forged header may have given the client a height the real chain has not produced yet)
+			if int64(hh.RevisionHeight) > p.bPkt.SentAt && int64(hh.RevisionHeight) > h && int64(hh.RevisionHeight) <= p.B.Height {
 				h = int64(hh.RevisionHeight)
 			}
 		}
